@@ -13,7 +13,8 @@ DROP = ('res', 'bak', 'new', 'maxrel')   # output / not in the VIEW / ghost (the
 WORKERS = int(os.environ.get('VERIF_TLC_WORKERS') or 8)
 BLOCKS = ['A', 'B']
 
-CFGS = {'g': 'MC_PrivVal_g.cfg', 'q': 'MC_PrivVal_q.cfg', 't': 'MC_PrivVal_t.cfg'}
+CFGS = {'g': 'MC_PrivVal_g.cfg', 'q': 'MC_PrivVal_q.cfg', 't': 'MC_PrivVal_t.cfg',
+        'c': 'MC_PrivVal_c.cfg', 'cq': 'MC_PrivVal_cq.cfg'}   # c, cq: with a second, concurrent requester
 
 
 def nontrivial(tr):
@@ -21,7 +22,7 @@ def nontrivial(tr):
     if tr['cfg']['kind'] == 'random':
         return True
     for s in tr['steps']:
-        if s['a'] in ('Crash', 'Reload'):
+        if s['a'] in ('Crash', 'Reload', 'Issue2'):
             return True
         if s['a'] in ('WriteBak', 'WriteNew', 'Rename', 'Return') and s['args'][0] != 'ok':
             return True
@@ -41,27 +42,31 @@ def run(ctx, replay=None):
         return
 
     quick = ctx.tier == 'quick'
-    exhaustive = ['g', 'q'] if quick else ['g', 'q', 't']
-    graph_cfgs = ['g'] if quick else ['g', 'q']
+    exhaustive = ['g', 'c', 'q'] if quick else ['g', 'c', 'q', 't', 'cq']
+    graph_cfgs = ['g', 'c'] if quick else ['g', 'c', 'q']
     sim_cfgs = [('t', 150, 40)] if quick else [('t', 1500, 60)]
     all_traces = []
     for name in exhaustive:
         dump = name in graph_cfgs
         r = engine.tlc_check(ctx, SPEC, 'MC_PrivVal.tla', CFGS[name], name='PrivVal/' + name, dump=dump, workers=WORKERS,
-                             timeout=600 if quick else 3000, coverage=(name == 'g'))
+                             timeout=600 if quick else 3000, coverage=(name in ('g', 'c')))
         if r.violation:
             ctx.inconclusive.append('spec property %s violated in config %s (specification defect, not a verdict '
                                     'about the code)' % (r.violation, name))
         if r.coverage:
-            ctx.cov['action_coverage'] = {a: list(v) for a, v in r.coverage.items()}
-            vac = [a for a, (d, t) in r.coverage.items() if t == 0]
-            if vac:
-                ctx.inconclusive.append('vacuous actions in PrivVal/%s: %s' % (name, vac))
+            # g has no second requester, c has no crashes: an action is vacuous only if it never fires in either
+            ac = ctx.cov.setdefault('action_coverage', {})
+            for a, (d, t) in r.coverage.items():
+                ac[a] = [ac.get(a, [0, 0])[0] + d, ac.get(a, [0, 0])[1] + t]
         if dump and r.scratch:
             g = tlc.parse_dot(os.path.join(r.scratch, 'graph.dot'), drop_vars=DROP)
             only = None
             max_paths = None
-            if name != 'g':
+            if name == 'c':
+                # two requesters: cover the transitions in which a second caller is issued, waits or is served
+                only = lambda e: e[1] in ('Issue2', 'Enter2') or g.states[e[0]]['wait']['b'] != 'nofile'  # noqa: E731
+                max_paths = 1200 if quick else None
+            elif name != 'g':
                 # larger graph: the refused and the plain successful requests are the code paths already covered edge by
                 # edge in g; here cover the crash / failing-write / reload / repeated-request transitions, within a budget
                 only = lambda e: (e[1] in ('Crash', 'Reload') or (e[1] == 'Request' and e[2][4] == 'same') or  # noqa: E731
@@ -73,10 +78,14 @@ def run(ctx, replay=None):
             ctx.cov['graph_edges_total'] = ctx.cov.get('graph_edges_total', 0) + want
             for k, p in enumerate(paths):
                 t = tlc.path_to_steps(g, p)
-                t['cfg'] = {'kind': 'model', 'Blocks': BLOCKS}
+                conc = any(s['a'] == 'Issue2' for s in t['steps'])
+                t['cfg'] = {'kind': 'conc' if conc else 'model', 'Blocks': BLOCKS}
                 t['id'] = 'graph-%s-%d' % (name, k)
                 all_traces.append(t)
         tlc.cleanup(r)
+    vac = [a for a, (d, t) in ctx.cov.get('action_coverage', {}).items() if t == 0]
+    if vac:
+        ctx.inconclusive.append('vacuous actions in PrivVal (g and c): %s' % vac)
     for name, num, depth in sim_cfgs:
         r, traces = tlc.simulate_traces(SPEC, 'MC_PrivVal.tla', CFGS[name], num, depth, ctx.seed, drop_vars=DROP)
         ctx.add_tlc('PrivVal/sim-' + name, r, exhaustive=False)
@@ -118,8 +127,20 @@ def run(ctx, replay=None):
     if not ok:
         ctx.inconclusive.append('binding self-test: a corrupted trace was accepted by the driver (or no probe found)')
 
+    # the two-requester behaviours run in a driver process of their own (few goroutines: its scheduler reads goroutine states)
+    conc_traces = [t for t in all_traces if t['cfg']['kind'] == 'conc']
+    all_traces = [t for t in all_traces if t['cfg']['kind'] != 'conc']
     rep = engine.run_driver(ctx, 'privval', all_traces, timeout=3000)
     engine.collect(ctx, rep, all_traces, 'privval')
+    if conc_traces:
+        rep2 = engine.run_driver(ctx, 'privval', conc_traces, timeout=3000)
+        engine.collect(ctx, rep2, conc_traces, 'privval')
+        for k in ('traces', 'steps', 'checks'):
+            rep[k] += rep2[k]
+        for k, v in (rep2.get('counters') or {}).items():
+            rep.setdefault('counters', {})[k] = rep['counters'].get(k, 0) + v
+        ctx.cov['concurrent_behaviours'] = rep2['traces']
+        all_traces = all_traces + conc_traces
     ctx.cov['traces_validated_against_impl'] = rep['traces']
     ctx.cov['evaluations'] = rep['steps']
     ctx.cov['distinct_nontrivial'] = sum(1 for t in all_traces if nontrivial(t))
@@ -137,6 +158,6 @@ def run(ctx, replay=None):
                         'a crash is placed immediately before each of the three writes of WriteFileAtomic, between save() and the '
                         'return of the signature, and between calls; a torn .new file is never read by the code (only renamed when complete)',
                         'a failing write leaves the target untouched (failpoint returns the error before the write)',
-                        'ed25519 signatures are deterministic and unforgeable; the signer is used by one goroutine at a time (its mutex)',
+                        'ed25519 signatures are deterministic and unforgeable; at most two concurrent callers of the signer (a second one issued while the first is parked at a WriteFileAtomic gate); they must be serialized by the mutex of the signer',
                         'the consensus layer reaches the signer only through SignVote / SignProposal (replay mode tolerating the '
                         'returned errors is exercised by the consensus checks, not here)']
